@@ -418,6 +418,9 @@ class Machine:
             body = fr.fn.promoted.get(int(pm.group(1)))
             if body is None: raise Inconclusive('promoted const not found: ' + s)
             return self.run_fn(body, [])
+        mu = re.fullmatch(r'(?:[\w]+::)*(\w+)(?:::<.*>)?::(\w+)', s)
+        if mu and mu.group(1) in self.decls.enums and any(v == mu.group(2) and f is None for v, f in self.decls.enums[mu.group(1)]):
+            k = self.decls.variant_index(mu.group(1), mu.group(2)); return EnumV(mu.group(1), k, {k: []})
         nc = MIR.NAMED_CONSTS.get(s.split('::')[-1])
         if nc is not None and re.fullmatch(r'[\w:]+', s): return self.const(fr, nc)
         hook = self.aux.get('const_hook')
